@@ -252,6 +252,9 @@ def run(c):
         c.drift("gateway loop run failed rc=%s %s" % (rc, (so or "")[-300:]))
     else:
         g = json.load(open(gout))
+        for x in g["log"]:
+            if "replies" in x:   # WireGuard keepalives (empty payload) are not replies
+                x["replies"] = [rp for rp in x["replies"] if rp.get("len", 1) > 0]
         steps = {x["step"]: x for x in g["log"]}
         c.cov["gateway_loop"] = g["log"]
         if g["authorised_phase_done_at_s"] > g["life"] - 5:
